@@ -60,12 +60,20 @@ import re as _re
 _LEAF = _re.compile(r"""(?:[A-Za-z_.]+\s*(?:===|==|!=|<=|>=|~=|<|>|not\s+in|in)\s*(?:"[^"]*"|'[^']*'))|(?:(?:"[^"]*"|'[^']*')\s*(?:===|==|!=|<=|>=|~=|<|>|not\s+in|in)\s*[A-Za-z_.]+)""")
 def leaves_of(text):
     return list(dict.fromkeys(m.group(0) for m in _LEAF.finditer(text or "")))
-def marker_variants(texts, limit=400):
-    """the clauses of the disagreeing markers alone and in pairs under 'and' / 'or' (both orders)"""
+_FLIP = {"<=": ">", ">": "<=", ">=": "<", "<": ">=", "==": "!=", "!=": "==", "not in": "in", "in": "not in"}
+def flip_leaf(l):
+    """the clause with the complementary operator (the inverse of a marker is built from these)"""
+    m = _re.search(r"\s(not\s+in|in|<=|>=|==|!=|<|>)\s", " " + l + " ")
+    if not m: return None
+    op = " ".join(m.group(1).split())
+    return (" " + l + " ").replace(m.group(0), f" {_FLIP[op]} ", 1).strip()
+def marker_variants(texts, limit=600):
+    """the clauses of the disagreeing markers and their complements, alone and in pairs under 'and' / 'or' (both orders)"""
     ls = []
     for t in texts:
         for l in leaves_of(t):
-            if l not in ls: ls.append(l)
+            for x in (l, flip_leaf(l)):
+                if x and x not in ls: ls.append(x)
     out = list(ls)
     for x in ls:
         for y in ls:
